@@ -63,7 +63,84 @@ fn fixed_sig() -> ([u8; 32], [u8; 32]) {
 
 /// What hdwallet made of the document: digest and encodings under a fixed signature with both parities.
 fn observe(doc: &str) -> Result<Result<([u8; 32], Option<Vec<u8>>, Option<Vec<u8>>), String>, String> {
+    if VIA_CLI.with(|v| v.get()) {
+        return observe_cli(doc);
+    }
     crate::isolate::inflight("transaction", doc.as_bytes(), "generated", || observe_inner(doc))
+}
+
+thread_local! {
+    /// the judges observe through the executable (`hash transaction`) instead of the library
+    static VIA_CLI: std::cell::Cell<bool> = const { std::cell::Cell::new(false) };
+    static CLI_TIMED_OUT: std::cell::Cell<bool> = const { std::cell::Cell::new(false) };
+}
+
+/// `hdwallet hash transaction` (document on stdin or in a file, alternating): the signing digest or the refusal.
+/// Outer Err = panic / abnormal end / success with unparsable output.
+fn observe_cli(doc: &str) -> Result<Result<([u8; 32], Option<Vec<u8>>, Option<Vec<u8>>), String>, String> {
+    let root = crate::cli::global_root();
+    let by_file = crate::engine::stable_hash(&doc) % 2 == 0;
+    let (inv, file) = if by_file {
+        let f = crate::cli::temp_file(&root, doc.as_bytes());
+        (crate::cli::Invocation::new(&["hash", "transaction", &f.to_string_lossy()]), Some(f))
+    } else {
+        (crate::cli::Invocation::new(&["hash", "transaction", "-"]).stdin(doc.as_bytes()), None)
+    };
+    let out = crate::cli::run_global(&inv);
+    if let Some(f) = file {
+        let _ = std::fs::remove_file(f);
+    }
+    let Some(out) = out else { return Err("harness: CLI not configured".into()) };
+    if out.timed_out {
+        CLI_TIMED_OUT.with(|t| t.set(true));
+        return Ok(Err("watchdog".into()));
+    }
+    if out.ok() {
+        let s = out.stdout_str();
+        let d = s.strip_suffix('\n').and_then(|l| l.strip_prefix("0x")).and_then(crate::refimpl::unhex).filter(|d| d.len() == 32);
+        return match d {
+            Some(d) => Ok(Ok((d.try_into().unwrap(), None, None))),
+            None => Err(format!("`hdwallet hash transaction` exit 0 without a digest line: {}", out.describe())),
+        };
+    }
+    if out.ordinary_error() && out.stdout.is_empty() && !out.stderr.is_empty() {
+        return Ok(Err(crate::engine::truncate(&out.stderr_str(), 200)));
+    }
+    Err(format!("`hdwallet hash transaction`: neither a digest nor an ordinary error with empty stdout: {}", out.describe()))
+}
+
+fn via_cli<C>(c: &C, cls: &mut Classifier, judge: fn(&C, &mut Classifier) -> Verdict) -> Verdict {
+    VIA_CLI.with(|v| v.set(true));
+    CLI_TIMED_OUT.with(|t| t.set(false));
+    let mut scratch = Classifier::default();
+    let r = judge(c, &mut scratch);
+    VIA_CLI.with(|v| v.set(false));
+    if CLI_TIMED_OUT.with(|t| t.get()) {
+        cls.label("cli-timed-out");
+        return Ok(());
+    }
+    if r.is_ok() {
+        cls.label("cli-sample");
+    }
+    r
+}
+
+fn judge_cli(c: &Case, cls: &mut Classifier) -> Verdict {
+    let r = via_cli(c, cls, judge);
+    if r.is_ok() {
+        cls.label(&format!("cli-class-{}", c.class));
+        cls.nontrivial(&(c.doc.as_str(), "cli"));
+    }
+    r
+}
+
+fn judge_bytes_cli(c: &BytesCase, cls: &mut Classifier) -> Verdict {
+    let r = via_cli(c, cls, judge_bytes);
+    if r.is_ok() {
+        cls.label("cli-bytes");
+        cls.nontrivial(&(c.doc.as_str(), "cli"));
+    }
+    r
 }
 
 fn observe_inner(doc: &str) -> Result<Result<([u8; 32], Option<Vec<u8>>, Option<Vec<u8>>), String>, String> {
@@ -348,7 +425,18 @@ fn gen_case(tape: Vec<u8>) -> Case {
     if class == "wellformed" || class == "lenient" {
         set_field(&mut model, field, x);
     }
-    let doc = render(&model, shape, &to_form, field, &fragment, &mut u);
+    let mut doc = render(&model, shape, &to_form, field, &fragment, &mut u);
+    let mut label = label;
+    if class == "malformed" && matches!(shape, Shape::Eip1559 | Shape::Eip1559NoList) && u.ratio(1, 3) {
+        // next to the malformed value everything another kind's reading would need (a redundant gasPrice, an
+        // access list): a parser that tries the kinds one after the other must not fall back to one that
+        // ignores the malformed field
+        if let Some(i) = doc.find('{') {
+            let extra = if shape == Shape::Eip1559NoList { "\"gasPrice\":\"0x3b9aca00\",\"accessList\":[]," } else { "\"gasPrice\":1000000000," };
+            doc.insert_str(i + 1, extra);
+            label = format!("{label}+other-kind-complete");
+        }
+    }
     Case { doc, model, field: field.to_string(), fragment, class: class.to_string(), label }
 }
 
@@ -508,12 +596,28 @@ fn judge_bytes(c: &BytesCase, cls: &mut Classifier) -> Verdict {
 }
 
 pub fn run(ctx: &mut Ctx) {
-    ctx.rule = "for each of the five document shapes and each numeric field: a boundary-strategy value in a well-formed spelling (JSON integer, integral floats x.0 / xe0 / d.ddde+k / x0e-1, decimal string with/without leading zeros, 0x-hex in lower/upper/mixed case and with leading zeros), a malformed spelling (negative numbers and strings, fractions, inexact or too-large literals, 2^256 and above, empty, white space, separators, bad digits, Unicode digits, bool/array/object/null/absent for required fields), an exact-or-refuse literal (integral literals f64 cannot carry), or an unspecified spelling (+, 0b/0o, 0X, -0). Oracle: well-formed -> accepted and digest + both-parity encodings equal the reference encoding of the integer; malformed -> Err; literal -> refused or exactly its arbitrary-precision value (jsonnum). Byte fields/addresses/storage keys: prefix, even length, hex digits, exact sizes. Non-trivial: spelling other than a plain JSON integer or value >= 2^64; distinct by document.".into();
+    ctx.rule = "for each of the five document shapes and each numeric field: a boundary-strategy value in a well-formed spelling (JSON integer, integral floats x.0 / xe0 / d.ddde+k / x0e-1, decimal string with/without leading zeros, 0x-hex in lower/upper/mixed case and with leading zeros), a malformed spelling (negative numbers and strings, fractions, inexact or too-large literals, 2^256 and above, empty, white space, separators, bad digits, Unicode digits, bool/array/object/null/absent for required fields), an exact-or-refuse literal (integral literals f64 cannot carry), or an unspecified spelling (+, 0b/0o, 0X, -0). Oracle: well-formed -> accepted and digest + both-parity encodings equal the reference encoding of the integer; malformed -> Err; literal -> refused or exactly its arbitrary-precision value (jsonnum). Byte fields/addresses/storage keys: prefix, even length, hex digits, exact sizes (also texts of the right length whose first two characters are not the prefix). CLI channel: the same generators and oracle observed through `hdwallet hash transaction` (file and stdin): digest line or ordinary error with empty stdout. Non-trivial: spelling other than a plain JSON integer or value >= 2^64; distinct by document.".into();
     ctx.assumptions = vec!["Rust's str::parse::<f64> is correctly rounded (used only inside the known-finding predicate)".into()];
     ctx.replay_known_and_regressions(&replay);
     let n = ctx.tier.pick(300_000, 5_000_000);
     ctx.run_prop("numbers", n, || crate::gen::tape(400).prop_map(gen_case), judge);
     ctx.run_prop("bytes", ctx.tier.pick(50_000, 500_000), || crate::gen::tape(400).prop_map(gen_bytes_case), judge_bytes);
+    if crate::cli::global_cli().is_some() {
+        // the same cases through the executable: whatever the command does with the document before the
+        // library sees it (reading, re-parsing, defaults) is part of what the user gets
+        ctx.shrink_iters = 150;
+        ctx.run_prop("cli", ctx.tier.pick(2000, 40_000), || crate::gen::tape(400).prop_map(gen_case), judge_cli);
+        ctx.run_prop("cli-bytes", ctx.tier.pick(300, 5000), || crate::gen::tape(400).prop_map(gen_bytes_case), judge_bytes_cli);
+        if ctx.cls.count("cli-timed-out") > 0 {
+            ctx.inconclusive("CLI watchdog expired");
+        }
+        for cl in ["wellformed", "malformed", "literal"] {
+            ctx.floor_abs(&format!("cli-class-{cl}"), 60);
+        }
+        ctx.floor_abs("cli-bytes", 200);
+    } else {
+        ctx.inconclusive("CLI executable not available for the CLI channel");
+    }
     crate::fuzz::run_for(ctx);
     // every field x well-formed spelling cell must have been hit
     for f in NUMERIC_FIELDS {
@@ -535,6 +639,8 @@ pub fn replay(sub: &str, case: &Value) -> Option<Verdict> {
     match sub {
         "numbers" => Some(replay_as::<Case>(case, judge)),
         "bytes" => Some(replay_as::<BytesCase>(case, judge_bytes)),
+        "cli" => Some(replay_as::<Case>(case, judge_cli)),
+        "cli-bytes" => Some(replay_as::<BytesCase>(case, judge_bytes_cli)),
         _ => None,
     }
 }
